@@ -91,7 +91,7 @@ def worker(wid, jobs, outpath):
             open(path, "w").write("\n".join(lines))
             res = {k: v for k, v in m.items() if not k.startswith("_")}
             try:
-                py_compile.compile(path, doraise=True, cfile=os.devnull)
+                compile(open(path).read(), path, "exec")
             except Exception:  # noqa: BLE001
                 res["outcome"] = "does-not-compile"
             else:
